@@ -669,6 +669,9 @@ func check(prop, tier string) int {
 			fmt.Printf("NOTE: %d executions of the uninstrumented build differ from the canonical-order run (map-order dependence: C07's business), e.g. %s\n", len(mismatches), mismatches[0])
 		}
 	}
+	if total.Blocked > 0 && !spec.FatalIsViolation {
+		fmt.Printf("NOTE: %d case(s) could not be judged for %s because Layout ended abnormally (C01's business): %v\n", total.Blocked, prop, total.BlockedClass)
+	}
 	for _, h := range harnessErrors {
 		fmt.Println("HARNESS-ERROR:", h)
 	}
